@@ -2028,7 +2028,6 @@ class unyt_array(np.ndarray):
                     conv, offset = u1.get_conversion_factor(u0, inp1.dtype)
                     new_dtypekind = "c" if inp1.dtype.kind == "c" else "f"
                     new_dtype = np.dtype(new_dtypekind + str(inp1.dtype.itemsize))
-                    conv = new_dtype.type(conv)
                     if (
                         offset is not None
                         and u1.base_offset != 0.0
@@ -2048,7 +2047,11 @@ class unyt_array(np.ndarray):
                         # point (see _preserve_units), rescale the difference
                         inp0 = np.asarray(inp0) * (u0.base_value / u1.base_value)
                     else:
-                        inp1 = np.asarray(inp1, dtype=new_dtype) * conv
+                        # rescale in (at least) double precision, then round once
+                        # to the float of the operand's item size
+                        calc_dtype = np.result_type(new_dtype, np.float64)
+                        inp1 = np.asarray(inp1, dtype=calc_dtype) * conv
+                        inp1 = inp1.astype(new_dtype, copy=False)
                     if ufunc is floor_divide:
                         # the quotient is floored in the units of the first operand
                         rule_u1 = u0
